@@ -107,109 +107,146 @@ def mkQueryBond (v : Val) (inRing : Bool) : Except Err Val :=
                else .error (valueErr "order should be from [1, 2, 3, 4, 8]")
   | _ => .error (.crash "TypeError")
 
-/-- one iteration of `for s in smiles:` -/
-def step (st : TState) (s : Nat) : Except Err TState :=
+/-- `token = None` after `if token: tokens.append(...)` (a falsy token is left as it is) -/
+def TState.clearTok (st : TState) : Pend := if st.token.truthy then .none else st.token
+
+/-- flush a pending token, append `t`, set the token type -/
+def TState.emit (st : TState) (t : RTok) (ty : Nat) : TState :=
+  { (st.flush.push t) with token := st.clearTok, ttype := ty }
+
+/-- branch `if token_type == 12:` (after `;`) -/
+def stepRing (st : TState) (s : Nat) : Except Err TState :=
+  if s == 33 then                                           -- '!'
+    if st.token.truthy then .error (smartsErr "Invalid ring bond token")
+    else .ok { st with token := .tru }
+  else if s == 64 then                                      -- '@'
+    match st.toks with
+    | [] => .error (smartsErr "Invalid ring bond token")
+    | t :: rest =>
+      if t.ty != 1 && t.ty != 10 then .error (smartsErr "Invalid ring bond token")
+      else match mkQueryBond t.val (!st.token.truthy) with
+        | .ok q => .ok { ttype := noneTy, token := .none, toks := ⟨12, q⟩ :: rest }
+        | .error e => .error e
+  else .error (smartsErr "Invalid ring bond token")
+
+/-- branch `elif s == '[':` -/
+def stepOpen (st : TState) : Except Err TState :=
   let tt := st.ttype
-  if tt == 12 then
-    if s == 33 then                                           -- '!'
-      if st.token.truthy then .error (smartsErr "Invalid ring bond token")
-      else .ok { st with token := .tru }
-    else if s == 64 then                                      -- '@'
-      match st.toks with
-      | [] => .error (smartsErr "Invalid ring bond token")
-      | t :: rest =>
-        if t.ty != 1 && t.ty != 10 then .error (smartsErr "Invalid ring bond token")
-        else match mkQueryBond t.val (!st.token.truthy) with
-          | .ok q => .ok { ttype := noneTy, token := .none, toks := ⟨12, q⟩ :: rest }
-          | .error e => .error e
-    else .error (smartsErr "Invalid ring bond token")
-  else if s == 91 then                                        -- '['
-    if tt == 5 then .error (smilesErr "[..[")
-    else if tt == 10 || tt == 11 then .error (smartsErr "Query bond invalid")
-    else if tt == 7 then .error (smilesErr "invalid closure")
-    else .ok { st.flush with token := .chars [], ttype := 5 }
-  else if s == 93 then                                        -- ']'
-    if tt != 5 then .error (smilesErr "]..]")
-    else if !st.token.truthy then .error (smilesErr "empty [] brackets")
+  if tt == 5 then .error (smilesErr "[..[")
+  else if tt == 10 || tt == 11 then .error (smartsErr "Query bond invalid")
+  else if tt == 7 then .error (smilesErr "invalid closure")
+  else .ok { st.flush with token := .chars [], ttype := 5 }
+
+/-- branch `elif s == ']':` -/
+def stepClose (st : TState) : Except Err TState :=
+  if st.ttype != 5 then .error (smilesErr "]..]")
+  else if !st.token.truthy then .error (smilesErr "empty [] brackets")
+  else match st.token with
+    | .chars l => .ok { (st.push ⟨5, .str l⟩) with token := .none, ttype := 0 }
+    | _ => .error (.crash "TypeError")
+
+/-- branch `elif token_type == 5:` -/
+def stepInside (st : TState) (s : Nat) : Except Err TState :=
+  match st.token with
+  | .chars l => .ok { st with token := .chars (l ++ [s]) }
+  | _ => .error (.crash "AttributeError")
+
+/-- branch `elif s.isnumeric():` -/
+def stepDigit (st : TState) (s : Nat) : Except Err TState :=
+  let tt := st.ttype
+  if tt == 10 || tt == 11 then .error (smartsErr "Query bond invalid")
+  else if tt == 2 then .error (smilesErr "(1 case invalid")
+  else if tt == 7 then
+    if !st.token.truthy && s == 48 then .error (smilesErr "number starts with 0")
     else match st.token with
-      | .chars l => .ok { (st.push ⟨5, .str l⟩) with token := .none, ttype := 0 }
-      | _ => .error (.crash "TypeError")
-  else if tt == 5 then
-    match st.token with
-    | .chars l => .ok { st with token := .chars (l ++ [s]) }
-    | _ => .error (.crash "AttributeError")
-  else if isDigit s then
-    if tt == 10 || tt == 11 then .error (smartsErr "Query bond invalid")
-    else if tt == 2 then .error (smilesErr "(1 case invalid")
-    else if tt == 7 then
-      if !st.token.truthy && s == 48 then .error (smilesErr "number starts with 0")
-      else match st.token with
-        | .chars l =>
-          let l' := l ++ [s]
-          if l'.length == 2 then .ok { (st.push ⟨6, .int (digitsToNat l')⟩) with token := .none, ttype := 6 }
-          else .ok { st with token := .chars l' }
-        | _ => .error (.crash "AttributeError")
-    else
-      if s == 48 then .error (smilesErr "number starts with 0")
-      else .ok { (st.flush.push ⟨6, .int (s - 48)⟩) with token := if st.token.truthy then .none else st.token, ttype := 6 }
-  else if tt == 7 then .error (smilesErr "expected closure number")
-  else if s == 37 then                                        -- '%'
-    if tt == 10 || tt == 11 then .error (smartsErr "Query bond invalid")
-    else if tt == 2 then .error (smilesErr "(%10 case invalid")
-    else .ok { st.flush with ttype := 7, token := .chars [] }
-  else if bondChars.contains s then
-    if tt == 10 then
-      match st.token, lookupNat s replaceDict with
-      | .ints l, some o => .ok { ttype := noneTy, token := .none, toks := ⟨10, .ints (l ++ [o])⟩ :: st.toks }
-      | _, none => .error (.crash "KeyError")
-      | _, _ => .error (.crash "AttributeError")
-    else if tt == 11 then
-      match lookupNat s notDict with
-      | none => .error (smartsErr "Query bond invalid")
-      | some l => .ok { (st.push ⟨10, .ints l⟩) with ttype := noneTy }
-    else
-      match lookupNat s replaceDict with
-      | none => .error (.crash "KeyError")
-      | some o => .ok { (st.flush.push ⟨1, .int o⟩) with token := if st.token.truthy then .none else st.token, ttype := 1 }
-  else if tt == 10 || tt == 11 then .error (smartsErr "query bond invalid")
-  else if slashChars.contains s then
-    .ok { (st.flush.push ⟨9, .bool (s == 47)⟩) with token := if st.token.truthy then .none else st.token, ttype := 9 }
-  else if s == 46 then                                        -- '.'
-    .ok { (st.flush.push ⟨4, .none⟩) with token := if st.token.truthy then .none else st.token, ttype := 4 }
-  else if s == 59 then                                        -- ';'
-    if tt != noneTy && tt != 1 then .error (smartsErr "Ring bond token invalid")
-    else .ok { st with ttype := 12 }
-  else if s == 44 then                                        -- ','
-    if tt != 1 then .error (smartsErr "Query bond invalid")
-    else match st.toks with
-      | [] => .error (.crash "IndexError")
-      | t :: rest =>
-        match t.val with
-        | .int n => .ok { ttype := 10, token := .ints [n], toks := rest }
-        | _ => .error (.crash "ModelShape")
-  else if s == 33 then                                        -- '!'
-    if !(tt == 0 || tt == 2 || tt == 3 || tt == 6 || tt == 8) then .error (smartsErr "Query bond invalid")
-    else .ok { st.flush with token := if st.token.truthy then .none else st.token, ttype := 11 }
+      | .chars l =>
+        let l' := l ++ [s]
+        if l'.length == 2 then .ok { (st.push ⟨6, .int (digitsToNat l')⟩) with token := .none, ttype := 6 }
+        else .ok { st with token := .chars l' }
+      | _ => .error (.crash "AttributeError")
+  else
+    if s == 48 then .error (smilesErr "number starts with 0")
+    else .ok (st.emit ⟨6, .int (s - 48)⟩ 6)
+
+/-- branch `elif s == '%':` -/
+def stepPercent (st : TState) : Except Err TState :=
+  let tt := st.ttype
+  if tt == 10 || tt == 11 then .error (smartsErr "Query bond invalid")
+  else if tt == 2 then .error (smilesErr "(%10 case invalid")
+  else .ok { st.flush with ttype := 7, token := .chars [] }
+
+/-- branch `elif s in '=#:-~':` -/
+def stepBond (st : TState) (s : Nat) : Except Err TState :=
+  let tt := st.ttype
+  if tt == 10 then
+    match st.token, lookupNat s replaceDict with
+    | .ints l, some o => .ok { ttype := noneTy, token := .none, toks := ⟨10, .ints (l ++ [o])⟩ :: st.toks }
+    | _, none => .error (.crash "KeyError")
+    | _, _ => .error (.crash "AttributeError")
+  else if tt == 11 then
+    match lookupNat s notDict with
+    | none => .error (smartsErr "Query bond invalid")
+    | some l => .ok { (st.push ⟨10, .ints l⟩) with ttype := noneTy }
+  else
+    match lookupNat s replaceDict with
+    | none => .error (.crash "KeyError")
+    | some o => .ok (st.emit ⟨1, .int o⟩ 1)
+
+/-- branch `elif s == ';':` -/
+def stepSemi (st : TState) : Except Err TState :=
+  if st.ttype != noneTy && st.ttype != 1 then .error (smartsErr "Ring bond token invalid")
+  else .ok { st with ttype := 12 }
+
+/-- branch `elif s == ',':` -/
+def stepComma (st : TState) : Except Err TState :=
+  if st.ttype != 1 then .error (smartsErr "Query bond invalid")
+  else match st.toks with
+    | [] => .error (.crash "IndexError")
+    | t :: rest =>
+      match t.val with
+      | .int n => .ok { ttype := 10, token := .ints [n], toks := rest }
+      | _ => .error (.crash "ModelShape")
+
+/-- branch `elif s == '!':` -/
+def stepBang (st : TState) : Except Err TState :=
+  let tt := st.ttype
+  if !(tt == 0 || tt == 2 || tt == 3 || tt == 6 || tt == 8) then .error (smartsErr "Query bond invalid")
+  else .ok { st.flush with token := st.clearTok, ttype := 11 }
+
+/-- branch `elif token_type == 0:` (second letter of Cl / Br) -/
+def stepSecond (st : TState) (s : Nat) : Except Err TState :=
+  if s == 108 then                                          -- 'l'
+    if st.token == .sym 67 then .ok { (st.push ⟨0, .str [67, 108]⟩) with token := .none }
+    else .error (smilesErr "invalid element Bl")
+  else if s == 114 then                                     -- 'r'
+    if st.token == .sym 66 then .ok { (st.push ⟨0, .str [66, 114]⟩) with token := .none }
+    else .error (smilesErr "invalid smiles for Cr")
+  else .error (smilesErr "invalid smiles")
+
+/-- one iteration of `for s in smiles:` — the `if/elif` chain in source order -/
+def step (st : TState) (s : Nat) : Except Err TState :=
+  if st.ttype == 12 then stepRing st s
+  else if s == 91 then stepOpen st                            -- '['
+  else if s == 93 then stepClose st                           -- ']'
+  else if st.ttype == 5 then stepInside st s
+  else if isDigit s then stepDigit st s
+  else if st.ttype == 7 then .error (smilesErr "expected closure number")
+  else if s == 37 then stepPercent st                         -- '%'
+  else if bondChars.contains s then stepBond st s
+  else if st.ttype == 10 || st.ttype == 11 then .error (smartsErr "query bond invalid")
+  else if slashChars.contains s then .ok (st.emit ⟨9, .bool (s == 47)⟩ 9)
+  else if s == 46 then .ok (st.emit ⟨4, .none⟩ 4)             -- '.'
+  else if s == 59 then stepSemi st                            -- ';'
+  else if s == 44 then stepComma st                           -- ','
+  else if s == 33 then stepBang st                            -- '!'
   else if s == 40 then                                        -- '('
-    if tt == 2 then .error (smilesErr "((")
-    else .ok { (st.flush.push ⟨2, .none⟩) with token := if st.token.truthy then .none else st.token, ttype := 2 }
+    if st.ttype == 2 then .error (smilesErr "((") else .ok (st.emit ⟨2, .none⟩ 2)
   else if s == 41 then                                        -- ')'
-    if tt == 2 then .error (smilesErr "()")
-    else .ok { (st.flush.push ⟨3, .none⟩) with token := if st.token.truthy then .none else st.token, ttype := 3 }
-  else if organicChars.contains s then
-    .ok { (st.flush.push ⟨0, .str [s]⟩) with token := if st.token.truthy then .none else st.token, ttype := 0 }
-  else if aromaticChars.contains s then
-    .ok { (st.flush.push ⟨8, .str [s - 32]⟩) with token := if st.token.truthy then .none else st.token, ttype := 8 }
-  else if clBrChars.contains s then
-    .ok { st.flush with ttype := 0, token := .sym s }
-  else if tt == 0 then
-    if s == 108 then                                          -- 'l'
-      if st.token == .sym 67 then .ok { (st.push ⟨0, .str [67, 108]⟩) with token := .none }
-      else .error (smilesErr "invalid element Bl")
-    else if s == 114 then                                     -- 'r'
-      if st.token == .sym 66 then .ok { (st.push ⟨0, .str [66, 114]⟩) with token := .none }
-      else .error (smilesErr "invalid smiles for Cr")
-    else .error (smilesErr "invalid smiles")
+    if st.ttype == 2 then .error (smilesErr "()") else .ok (st.emit ⟨3, .none⟩ 3)
+  else if organicChars.contains s then .ok (st.emit ⟨0, .str [s]⟩ 0)
+  else if aromaticChars.contains s then .ok (st.emit ⟨8, .str [s - 32]⟩ 8)
+  else if clBrChars.contains s then .ok { st.flush with ttype := 0, token := .sym s }
+  else if st.ttype == 0 then stepSecond st s
   else .error (smilesErr "invalid smiles")
 
 /-- the `for` loop -/
